@@ -120,9 +120,11 @@ class KeySrc:
 
 
 APIS_DATA = ["send_str", "send_bytes_text", "send_binary", "send_bytes", "send_text", "send_opbin", "send_bytearray",
-             "frame_text_fin0", "frame_bin_fin1", "frame_cont_fin0", "frame_cont_fin1", "frame_text_fin1", "frame_bin_fin0"]
+             "frame_text_fin0", "frame_bin_fin1", "frame_cont_fin0", "frame_cont_fin1", "frame_text_fin1", "frame_bin_fin0",
+             # text given as str for a continuation fragment (the idiom of send_frame()'s docstring) / a binary frame
+             "frame_contstr_fin0", "frame_contstr_fin1", "frame_binstr_fin1"]
 APIS_CTRL = ["ping_bytes", "ping_str", "pong_bytes", "pong_str", "send_ping_op", "send_pong_op",
-             "frame_ping", "frame_pong", "frame_close"]
+             "frame_ping", "frame_pong", "frame_close", "frame_pingstr", "frame_pongstr"]
 APIS_CLOSE = ["close", "send_close"]
 
 
@@ -170,6 +172,25 @@ def run(res, tier, seed, shard, nshards):
         for (L, api, ks, trace) in mine:
             one(res, W, rng, conns, L, api, ks, trace, null)
         W.enableTrace(False)
+        # texts that Python's text machinery treats specially go out as their exact UTF-8 bytes
+        for i, t in enumerate(H.TRICKY_TEXTS):
+            if (i + shard) % nshards == 0:
+                tricky_text_case(res, W, rng, t)
+        # a key source configured on the frame object itself (connection without one): the key on the wire is drawn from it
+        for i in range(30 if tier == "quick" else 600):
+            if (i + shard) % nshards == 0:
+                frame_keysrc_case(res, W, rng)
+        # the connection writes through a dispatcher object (as every WebSocketApp connection does) and the transport accepts
+        # the frame in pieces
+        for i in range(40 if tier == "quick" else 800):
+            if (i + shard) % nshards == 0:
+                dispatcher_case(res, W, rng)
+        # a few very large frames (sampled lengths beyond; sizes around powers of two up to 16 MiB)
+        bigs = [(1 << 22) - 1, (1 << 22), (1 << 22) + 1, 5000003] if tier == "quick" else \
+            [(1 << k) + d for k in (20, 21, 22, 23, 24) for d in (-1, 0, 1, 2, 3)] + [5000003, 12345678]
+        for i, n in enumerate(bigs):
+            if (i + shard) % nshards == 0:
+                big_case(res, W, rng, n)
         # one ABNF object written several times (re-sent as is, and with fin/opcode/data updated per fragment):
         # every write is one well-formed frame of its own with a fresh key
         for ks in ("default", "bytes", "str"):
@@ -195,7 +216,8 @@ def one(res, W, rng, conns, L, api, ks, trace, null):
     W.enableTrace(bool(trace), handler=null)
 
     # ---- build the payload ----
-    texty = api in ("send_str", "send_text", "ping_str", "pong_str", "frame_text_fin0", "frame_text_fin1")
+    texty = api in ("send_str", "send_text", "ping_str", "pong_str", "frame_text_fin0", "frame_text_fin1",
+                    "frame_contstr_fin0", "frame_contstr_fin1", "frame_binstr_fin1", "frame_pingstr", "frame_pongstr")
     if texty:
         s = rand_text(rng, L)
         arg = s
@@ -228,7 +250,8 @@ def one(res, W, rng, conns, L, api, ks, trace, null):
             ret = w.send(arg, W.ABNF.OPCODE_BINARY); op = R.BINARY
         elif api.startswith("frame_"):
             _, kind, *rest = api.split("_")
-            op = {"text": R.TEXT, "bin": R.BINARY, "cont": R.CONT, "ping": R.PING, "pong": R.PONG, "close": R.CLOSE}[kind]
+            op = {"text": R.TEXT, "bin": R.BINARY, "cont": R.CONT, "ping": R.PING, "pong": R.PONG, "close": R.CLOSE,
+                  "contstr": R.CONT, "binstr": R.BINARY, "pingstr": R.PING, "pongstr": R.PONG}[kind]
             fin = 0 if rest and rest[0] == "fin0" else 1
             if kind == "close" and L >= 2:
                 arg = expect_payload = b"\x03\xe8" + rand_text(rng, L - 2).encode()
@@ -374,6 +397,155 @@ def reuse_case(res, W, rng, ks):
             res.violation("key-draws", f"reused frame object step {k} ({how}): {len(draws)} draws from the key source; key on the wire {f.key.hex()}", case, api="send_frame-reuse", keysrc=ks)
         elif ret != len(written):
             res.violation("return-value", f"reused frame object step {k}: returned {ret}, frame has {len(written)} bytes", case, api="send_frame-reuse", keysrc=ks)
+
+
+def _check_frame(res, tag, written, payload, op, fin, ret, case, **kw):
+    try:
+        f = R.decode_one(written)
+    except R.Incomplete:
+        res.violation("frame-incomplete", f"{tag}: the {len(written)} bytes written are not one complete frame", case, **kw)
+        return None
+    if f.end != len(written) or f.payload != payload or f.opcode != op or f.fin != fin or f.rsv or not f.masked or not f.minimal:
+        res.violation("frame-damaged" if f.masked else "unmasked", f"{tag}: decoded op={f.opcode} fin={f.fin} len={f.length} end={f.end}/{len(written)} masked={f.masked} "
+                      f"minimal={f.minimal} payload equal={f.payload == payload}", case, **kw)
+        return None
+    if ret is not None and ret != len(written):
+        res.violation("return-value", f"{tag}: returned {ret!r}, frame has {len(written)} bytes", case, **kw)
+        return None
+    return f
+
+
+def tricky_text_case(res, W, rng, t):
+    w, conn, peer = H.connected_ws()
+    for api in ("send", "send_text", "frame_text", "frame_cont", "ping", "close"):
+        payload = t.encode("utf-8")
+        before = len(peer.client_stream)
+        case = {"gen": "tricky-text", "api": api, "text": t}
+        op, fin, ret = R.TEXT, 1, None
+        try:
+            if api == "send":
+                ret = w.send(t)
+            elif api == "send_text":
+                ret = w.send_text(t)
+            elif api == "frame_text":
+                fin = 0
+                ret = w.send_frame(W.ABNF.create_frame(t, W.ABNF.OPCODE_TEXT, 0))
+            elif api == "frame_cont":
+                op = R.CONT
+                ret = w.send_frame(W.ABNF.create_frame(t, W.ABNF.OPCODE_CONT, 1))
+            elif api == "ping":
+                op = R.PING
+                w.ping(t)
+            else:
+                op = R.CLOSE
+                payload = b"\x03\xe8" + payload
+                w.send_close(1000, t.encode("utf-8"))
+        except Exception as e:  # noqa
+            res.violation("send-raised", f"{api}({t!r}): {type(e).__name__}: {e}", case, api="tricky-" + api, exc_type=type(e).__name__)
+            return
+        res.case(("tricky", api, t))
+        res.count("tricky_texts_sent")
+        if _check_frame(res, f"{api}({t!r})", bytes(peer.client_stream[before:]), payload, op, fin, ret, case, api="tricky-" + api) is None:
+            return
+
+
+def frame_keysrc_case(res, W, rng):
+    """frame.get_mask_key set by the caller, connection without a key source of its own."""
+    ks = rng.choice(["bytes", "str"])
+    src = KeySrc(ks, rng)
+    w, conn, peer = H.connected_ws()
+    for step in range(3):
+        op, fin = rng.choice([(R.TEXT, 1), (R.BINARY, 1), (R.TEXT, 0), (R.CONT, 0), (R.CONT, 1), (R.PING, 1), (R.PONG, 1)])
+        n = rng.choice([0, 1, 3, 4, 5, 125]) if op in (R.PING, R.PONG) else rng.choice([0, 1, 5, 125, 126, 1000, 65536])
+        payload = rand_text(rng, n).encode() if op in (R.TEXT, R.CONT) else rng.randbytes(n)
+        frame = W.ABNF.create_frame(payload, op, fin)
+        frame.get_mask_key = src.fn()
+        del src.draws[:]
+        before = len(peer.client_stream)
+        u0 = len(shim.urandom_log)
+        case = {"gen": "frame-keysrc", "keysrc": "frame-" + ks, "opcode": op, "fin": fin, "len": n}
+        try:
+            ret = w.send_frame(frame)
+        except Exception as e:  # noqa
+            res.violation("send-raised", f"frame-level key source ({ks}): {type(e).__name__}: {e}", case, api="send_frame-framekey", exc_type=type(e).__name__)
+            return
+        res.case(("framekey", ks, op, fin, n, R_h(payload)))
+        res.count("frame_level_keysrc_writes")
+        f = _check_frame(res, f"frame-level key source ({ks}) op={op} fin={fin} len={n}", bytes(peer.client_stream[before:]), payload, op, fin, ret, case,
+                         api="send_frame-framekey", keysrc="frame-" + ks)
+        if f is None:
+            return
+        os_draws = [1 for (n_, v, fn, fun) in shim.urandom_log[u0:] if fn == "_abnf.py"]
+        if len(src.draws) != 1 or os_draws:
+            res.violation("key-draws", f"frame-level key source ({ks}): {len(src.draws)} draws from it and {len(os_draws)} from the OS for one frame", case,
+                          api="send_frame-framekey", keysrc="frame-" + ks)
+            return
+        v = src.draws[0][1]
+        vb = v.encode("ascii") if isinstance(v, str) else v
+        if vb != f.key or src.draws[0][0] != 4:
+            res.violation("key-mismatch", f"frame-level key source ({ks}): key on the wire {f.key.hex()} != drawn {vb.hex()}", case, api="send_frame-framekey", keysrc="frame-" + ks)
+            return
+
+
+def dispatcher_case(res, W, rng):
+    import itertools
+    disp = rng.choice(["base", "plain", "ssl"])
+    D = W._dispatcher
+    app = type("A", (), {"keep_running": True})()
+    d = {"base": lambda: D.DispatcherBase(app, 5), "plain": lambda: D.Dispatcher(app, 5), "ssl": lambda: D.SSLDispatcher(app, 5)}[disp]()
+    ks = rng.choice(["default", "bytes", "str"])
+    src = KeySrc(ks, rng)
+    w, conn, peer = H.connected_ws(ws_kwargs={"dispatcher": d, "get_mask_key": src.fn()})
+    for step in range(3):
+        n = rng.choice([0, 1, 10, 125, 126, 5000, 65535, 65536, 100000])
+        plan = rng.choice(["ones", "random", "blocks", "whole"])
+        conn.write_plan = {"ones": lambda: itertools.chain(iter([1] * 30), itertools.cycle([rng.randrange(1, 4000)])),
+                           "random": lambda: (rng.randrange(1, 3000) for _ in itertools.count()),
+                           "blocks": lambda: itertools.cycle([16384]), "whole": lambda: None}[plan]()
+        api = rng.choice(["send", "send_binary", "ping", "send_frame"]) if n <= 125 else rng.choice(["send", "send_binary", "send_frame"])
+        before = len(peer.client_stream)
+        case = {"gen": "dispatcher", "dispatcher": disp, "plan": plan, "api": api, "len": n, "keysrc": ks}
+        try:
+            if api == "send":
+                t = rand_text(rng, n)
+                payload, op, fin = t.encode(), R.TEXT, 1
+                ret = w.send(t)
+            elif api == "send_binary":
+                payload, op, fin = rng.randbytes(n), R.BINARY, 1
+                ret = w.send_binary(payload)
+            elif api == "ping":
+                payload, op, fin = rng.randbytes(n), R.PING, 1
+                w.ping(payload)
+                ret = None
+            else:
+                payload, op, fin = rng.randbytes(n), R.CONT, 0
+                ret = w.send_frame(W.ABNF.create_frame(payload, W.ABNF.OPCODE_CONT, 0))
+        except Exception as e:  # noqa
+            res.violation("send-raised", f"through {disp} dispatcher, plan {plan}: {type(e).__name__}: {e}", case, api="dispatcher-" + api, exc_type=type(e).__name__)
+            return
+        res.case(("disp", disp, plan, api, n, R_h(payload)), nontrivial=plan != "whole")
+        res.count("writes_through_dispatcher")
+        if _check_frame(res, f"through {disp} dispatcher, plan {plan}, {api} len={n}", bytes(peer.client_stream[before:]), payload, op, fin, ret, case,
+                        api="dispatcher-" + api, keysrc=ks) is None:
+            return
+
+
+def big_case(res, W, rng, n):
+    ks = rng.choice(["default", "bytes", "str"])
+    src = KeySrc(ks, rng)
+    w, conn, peer = H.connected_ws(ws_kwargs={"get_mask_key": src.fn()})
+    payload = rng.randbytes(n)
+    before = len(peer.client_stream)
+    case = {"gen": "big", "len": n, "keysrc": ks}
+    try:
+        ret = w.send_binary(payload)
+    except Exception as e:  # noqa
+        res.violation("send-raised", f"send_binary len={n}: {type(e).__name__}: {e}", case, api="send_binary-big", exc_type=type(e).__name__)
+        return
+    res.case(("big", n, ks))
+    res.count("big_frames_checked")
+    _check_frame(res, f"send_binary len={n} key={ks}", bytes(peer.client_stream[before:]), payload, R.BINARY, 1, ret, case, api="send_binary-big", keysrc=ks)
+    del peer.client_stream[before:]
 
 
 def duplex_case(res, W, rng, null):
